@@ -139,7 +139,16 @@ func handleGetUser(w http.ResponseWriter, r *http.Request, s Server) (int, error
 		return restapi.EncodeResponse(w, http.StatusNotFound, &userNotFoundJSON)
 	}
 
-	return restapi.EncodeResponse(w, http.StatusOK, response{userCred, s.StatsCollector.Snapshot().Traffic})
+	// The user's own traffic, not the server's total.
+	var traffic stats.Traffic
+	for _, u := range s.StatsCollector.Snapshot().Users {
+		if u.Name == username {
+			traffic = u.Traffic
+			break
+		}
+	}
+
+	return restapi.EncodeResponse(w, http.StatusOK, response{userCred, traffic})
 }
 
 func handleUpdateUser(w http.ResponseWriter, r *http.Request, s Server) (int, error) {
